@@ -179,6 +179,7 @@ func (c *Authority) VerifyAggregateQC(aggQC hotstuff.AggregateQC) (highQC hotstu
 			SyncInfo: hotstuff.NewSyncInfoWith(qc),
 		}.ToBytes()
 	}
+	qcs = verifOrderQCs(aggQC.QCs(), qcs)
 	quorumSize := c.config.QuorumSize()
 	participants := aggQC.Sig().Participants()
 	if participants.Len() < quorumSize {
